@@ -170,7 +170,12 @@ pub fn run_pair(s: &Setup, allow_reset: bool) -> Result<RunResult, Violation> {
     draw_policy();
     // multistream-select writes a whole flight (header + proposal, <= 2 frames) before reading:
     // the transport must buffer at least that much in each direction.
-    let (a, b) = pipe::pair_cfg(PipeCfg::draw_min_cap(40_000), PipeCfg::draw_min_cap(40_000));
+    // one run in three uses a transport with buffered-writer semantics: nothing reaches the peer before a flush
+    let staged = choose(3) == 0;
+    if staged {
+        probe("transport_needs_flush");
+    }
+    let (a, b) = pipe::pair_cfg(PipeCfg::draw_min_cap(40_000).with_staged(staged), PipeCfg::draw_min_cap(40_000).with_staged(staged));
     let ctl = a.ctl();
     ctl.tap_tx();
     ctl.tap_rx();
